@@ -346,6 +346,29 @@ def maxabs(*vs):
     return m
 
 
+def representable(x, ty):
+    f = float(x)
+    if ty == "f32":
+        f = float(np.float32(f))
+    return Fr(f) == x
+
+
+def obb_exact(d, p, ty):
+    """the box-frame coordinates are computed without rounding: signed-permutation rotation and p - c representable"""
+    n = d["n"]
+    R = d["R"]
+    if any(x not in (0, 1, -1) for row in R for x in row):
+        return False
+    if any(sum(1 for i in range(n) if R[i][j] != 0) > 1 for j in range(n)):
+        return False
+    return all(representable(p[i] - d["c"][i], ty) for i in range(n))
+
+
+def aabb_firm(ac, ah, p, ty, band):
+    """the derived box's own verdict on p is not inside a rounding band"""
+    return all(representable(p[i] - ac[i], ty) or abs(ah[i] - abs(p[i] - ac[i])) > band for i in range(len(p)))
+
+
 def obb_margin(d, p):
     """exact smallest |h_j - |(R^T (p - c))_j|| and the exact verdict, from the case's inputs"""
     n = d["n"]
@@ -381,11 +404,18 @@ def oracle(case, out):
                     fails.append(("c20-aabb-tointerval", "axis %d: [%s,%s] is not centre -+ half-extent" % (i, float(lo[i]), float(hi[i]))))
         for p, b in zip(d["pts"], bits):      # contains p exactly when every coordinate is within centre +- half-extent
             ms = [h[i] - abs(p[i] - c[i]) for i in range(n)]
-            exact = all(m >= 0 for m in ms)
             band = 2 * eps * maxabs(p, c, h)
-            if int(b) != int(exact) and min(abs(m) for m in ms) > band:
+            # an axis decides when p - c is exactly representable (then the comparison is exact) or the margin exceeds the rounding band
+            firm = [representable(p[i] - c[i], ty) or abs(ms[i]) > band for i in range(n)]
+            if all(m >= 0 for m in ms) and all(firm):
+                expect = 1
+            elif any(ms[i] < 0 and firm[i] for i in range(n)):
+                expect = 0
+            else:
+                expect = None
+            if expect is not None and int(b) != expect:
                 fails.append(("c20-aabb-inside", "point %s centre %s half %s: isInside=%s, expected %s"
-                              % ([float(x) for x in p], [float(x) for x in c], [float(x) for x in h], b, int(exact))))
+                              % ([float(x) for x in p], [float(x) for x in c], [float(x) for x in h], b, expect)))
     elif kind == "obb":
         n = d["n"]
         ac, ah, bits = o[:n], o[n:2 * n], o[2 * n:]
@@ -394,10 +424,10 @@ def oracle(case, out):
         for q, p in enumerate(d["pts"]):
             bo, ba = int(bits[2 * q]), int(bits[2 * q + 1])
             exact, margin = obb_margin(d, p)
-            if bo != int(exact) and margin > band:
+            if bo != int(exact) and (margin > band or obb_exact(d, p, ty)):
                 fails.append(("c20-obb-inside", "point %s: isInside=%d but in the box frame it is %s (margin %g)"
                               % ([float(x) for x in p], bo, "inside" if exact else "outside", float(margin))))
-            if exact and margin > band and not ba:
+            if exact and (margin > band or obb_exact(d, p, ty)) and not ba and aabb_firm(ac, ah, p, ty, band):
                 fails.append(("c20-obb-aabb-encloses", "point %s is in the oriented box but not in its axis-aligned box" % [float(x) for x in p]))
         # enclosing and tight: every corner inside, every face touched by a corner
         corners = []
@@ -498,7 +528,7 @@ def compare(case, il, ml):
             if kind == "obb":      # the dot product may be summed in another order: accept inside the rounding band only
                 p = d["pts"][q // 2]
                 _, margin = obb_margin(d, p)
-                if margin <= 16 * Fr(eps) * (Fr(sc) + maxabs(p)):
+                if margin <= 16 * Fr(eps) * (Fr(sc) + maxabs(p)) and not obb_exact(d, p, ty):
                     continue
             return "verdict %d: impl %s model %s" % (q, a[nnum + q], b[nnum + q])
     return None
@@ -545,6 +575,12 @@ CHECK = {
                 "Eigen::Array element types (they do not compile for Eigen::Matrix points); they are exercised with Array types.",
         "technique": "Coq proof (induction over point lists, real arithmetic) + extracted-model correspondence run",
     },
+    "coverage_extra": lambda: {"notes": [
+        "romea::core::min / max (EigenContainers.hpp) call .min(point) / .max(point) on the element type: they do not compile for "
+        "containers of Eigen::Matrix points (Vector2d, ...), only for Eigen::Array element types; exercised with Array<Scalar,2|3|4,1> in "
+        "vector/deque/list containers (case kind cext); mean is exercised with Matrix and Array element types (cmean, cext)",
+        "their initial values are max() and -max(): the smallest-positive mistake of the preconditioner is not present there",
+        "a point set whose largest side is 0 (one point, identical points) has no reciprocal: the code returns +inf, accepted by the oracle"]},
     "assumptions": ["finite inputs (no NaN/Inf); |coordinates| <= numeric_limits::max()",
                     "for a set whose largest side is 0 the reciprocal is undefined: the code returns +inf (IEEE 1/0), accepted",
                     "Eigen evaluates fixed-size coefficient-wise expressions as the scalar definitions"],
